@@ -221,7 +221,88 @@ def op_guards_unit(req):
     return out
 
 
-OPS = {"pipeline": op_pipeline, "preprocess": op_preprocess, "revise.unit": op_revise_unit, "guards.unit": op_guards_unit}
+def op_overlap_unit(req):
+    """The real OverlapWorker.calculate on small containers: genes [[id, start, stop]...] (container order), tes [[start, stop]...],
+    windows, requested ids. Returns the three arrays of the file it wrote, flattened gene by gene (intra row, then per window left, right),
+    with the stored gene names and windows; or that it raised."""
+    import logging, tempfile
+    import numpy as np
+    import pandas as pd
+    from transposon.gene_data import GeneData
+    from transposon.transposon_data import TransposonData
+    from transposon.overlap import OverlapWorker, OverlapData
+    logging.getLogger("transposon.overlap").setLevel(logging.CRITICAL + 1)
+    out = []
+    for c in req["cases"]:
+        gf = pd.DataFrame([["g%d" % i, s, e, e - s + 1, "C"] for i, s, e in c["genes"]], columns=["Gene_Name", "Start", "Stop", "Length", "Chromosome"])
+        gf.set_index("Gene_Name", inplace=True)
+        tf = pd.DataFrame([["C", s, e, "+", "O", "S", e - s + 1] for s, e in c["tes"]], columns=["Chromosome", "Start", "Stop", "Strand", "Order", "SuperFamily", "Length"])
+        d = tempfile.mkdtemp(prefix="vhov_")
+        try:
+            w = OverlapWorker(os.path.join(d, "o.h5"))
+            try:
+                path = w.calculate(GeneData(gf, "G"), TransposonData(tf, "G"), list(c["windows"]), ["g%d" % i for i in c["requested"]])
+            except Exception as e:  # noqa
+                out.append({"outcome": "raised", "exc": "%s: %s" % (type(e).__name__, str(e)[:200])})
+                continue
+            with OverlapData.from_file(os.path.join(d, "o.h5")) as o:
+                L, I, R = o.left[:], o.intra[:], o.right[:]
+                flat = []
+                for g in range(L.shape[0]):
+                    flat += [int(x) for x in I[g, 0, :]]
+                    for wi in range(L.shape[1]):
+                        flat += [int(x) for x in L[g, wi, :]] + [int(x) for x in R[g, wi, :]]
+                whole = bool(np.all(L == np.floor(L)) and np.all(I == np.floor(I)) and np.all(R == np.floor(R)))
+                out.append({"outcome": "ok", "flat": flat, "whole_numbers": whole, "shape": list(L.shape), "intra_shape": list(I.shape),
+                            "gene_names": [str(x) for x in o.gene_names], "windows": [int(x) for x in o.windows]})
+        finally:
+            shutil.rmtree(d, ignore_errors=True)
+    return {"ok": True, "results": out}
+
+
+def op_merge_unit(req):
+    """The real OverlapWorker.calculate followed by the real MergeData.sum on small containers: genes [[id, start, stop]...],
+    tes [[start, stop, order id, superfamily id]...], windows. Returns, per group axis, the stored names and the three density arrays
+    flattened [group][window][gene], with the stored gene names and windows; or that a stage raised."""
+    import logging, tempfile
+    import numpy as np
+    import pandas as pd
+    from transposon.gene_data import GeneData
+    from transposon.transposon_data import TransposonData
+    from transposon.overlap import OverlapWorker, OverlapData
+    from transposon.merge_data import MergeData
+    for n in ("transposon.overlap", "transposon.merge_data"):
+        logging.getLogger(n).setLevel(logging.CRITICAL + 1)
+    out = []
+    for c in req["cases"]:
+        gf = pd.DataFrame([["g%d" % i, s, e, e - s + 1, "C"] for i, s, e in c["genes"]], columns=["Gene_Name", "Start", "Stop", "Length", "Chromosome"])
+        gf.set_index("Gene_Name", inplace=True)
+        tf = pd.DataFrame([["C", s, e, "+", "o%03d" % o, "s%03d" % sf, e - s + 1] for s, e, o, sf in c["tes"]],
+                          columns=["Chromosome", "Start", "Stop", "Strand", "Order", "SuperFamily", "Length"])
+        d = tempfile.mkdtemp(prefix="vhmg_")
+        try:
+            genes, tes = GeneData(gf, "G"), TransposonData(tf, "G")
+            try:
+                OverlapWorker(os.path.join(d, "o.h5")).calculate(genes, tes, list(c["windows"]), list(genes.names))
+                md = MergeData.from_param(tes, genes, list(c["windows"]), d)
+                with md as sink:
+                    with OverlapData.from_file(os.path.join(d, "o.h5")) as ov:
+                        sink.sum(ov, genes, None)
+                    res = {"outcome": "ok", "gene_names": [str(x) for x in sink.gene_names], "windows": [int(x) for x in sink.windows]}
+                    for axis, names, dens in (("sup", sink.superfamily_names, sink.superfamily), ("ord", sink.order_names, sink.order)):
+                        res[axis + "_names"] = [str(x) for x in names]
+                        for side, arr in (("L", dens.left), ("I", dens.intra), ("R", dens.right)):
+                            a = arr[:]
+                            res[axis + side] = {"shape": list(a.shape), "flat": [float(x) for x in a.reshape(-1)]}
+                out.append(res)
+            except Exception as e:  # noqa
+                out.append({"outcome": "raised", "exc": "%s: %s" % (type(e).__name__, str(e)[:200])})
+        finally:
+            shutil.rmtree(d, ignore_errors=True)
+    return {"ok": True, "results": out}
+
+
+OPS = {"merge.unit": op_merge_unit, "overlap.unit": op_overlap_unit, "pipeline": op_pipeline, "preprocess": op_preprocess, "revise.unit": op_revise_unit, "guards.unit": op_guards_unit}
 
 
 def main():
